@@ -174,5 +174,47 @@ def rule_div(ctx):
     return res.finish(4)
 
 
+NONAFFINE = {"clamp", "max", "min", "abs", "floor", "ceil", "round", "powi", "powf", "sqrt", "exp", "ln", "signum", "rem_euclid", "mul_add_noop", "trunc", "fract", "recip"}
+
+
+def rule_affine(ctx):
+    res = RuleResult("R-C16-affine", "LinearScaler::transform applies only affine per-element arithmetic with the fitted offsets/scales (no clamp/min/max/abs, no branch on element values)")
+    F = ctx.facts()
+    fns = [f for f in F.find_fns(name="transform", krate="linfa_preprocessing", trait="Transformer") if (f["d"].get("self_adt") or "").endswith("LinearScaler") and "DatasetBase" not in f["inputs"][1]]
+    if not fns:
+        res.missing_anchor("<LinearScaler as Transformer<Array2,..>>::transform")
+    for fn in fns:
+        c = fn["crate"]
+        r = Render(c)
+        key = fn_key(fn)
+        xparam = fn["params"][1]["local"] if fn["params"][1].get("k") == "Bind" else None
+        # element-valued locals: parameters of closures passed to mapv/mapv_inplace/map_inplace
+        elem = set()
+        for n in walk(fn["body"]):
+            if n.get("k") == "MethodCall" and n["name"] in ("mapv_inplace", "mapv", "map_inplace", "mapv_into", "map") and n["args"]:
+                clo = strip(n["args"][0])
+                if clo.get("k") == "Closure":
+                    for p in clo["params"]:
+                        for b in pat_bindings(p):
+                            elem.add(b["local"])
+        res.instance("%s : %d element closures" % (key, len(elem)))
+        bad = None
+        for n in walk(fn["body"]):
+            if n.get("k") == "MethodCall" and n["name"] in NONAFFINE:
+                recv_locals = set(x["local"] for x in walk(n["recv"]) if x.get("k") == "Path" and "local" in x)
+                arr_names = [x.get("name") for x in walk(n["recv"]) if x.get("k") == "Path" and "local" in x]
+                if recv_locals & elem or "x" in arr_names:
+                    bad = (n, "`%s` is applied to the data: the transform is no longer the fitted affine map on unseen rows" % r.e(n)[:60])
+            if n.get("k") == "If":
+                cl = set(x["local"] for x in walk(n["c"]) if x.get("k") == "Path" and "local" in x)
+                if cl & elem:
+                    bad = (n, "a branch on the element value `%s`: the map is not affine" % r.e(n["c"])[:60])
+        if bad:
+            res.violate("%s : non-affine-operation" % key, bad[1], fn_loc(fn, bad[0]["ln"]))
+        else:
+            res.ok()
+    return res.finish(1)
+
+
 def rules(tier):
-    return [rule_meta, rule_empty, rule_div]
+    return [rule_meta, rule_empty, rule_div, rule_affine]
